@@ -17,7 +17,11 @@
      t_base    tag.short_base_tag            (interned, ids 1..6 reserved below)
      t_basef   tag.short_base_tag.casefold() (interned, ids 1..6 reserved below)
      t_uniq    indices of the schema's unique prefixes that long_tag starts with
-     t_req     indices of the schema's required prefixes that long_tag starts with *)
+     t_req     indices of the schema's required prefixes that long_tag starts with
+     t_def     only for Def / Def-expand tags, what DefValidator._handle_onset_or_offset finds
+               for the tag's name in the definition dictionary: 0 = declared and the
+               placeholder value is present exactly when the definition takes one,
+               1 = not declared, 2 = placeholder value missing or unexpected *)
 From Coq Require Import List NArith Arith Bool.
 From HV Require Import Base.Res Base.Str.
 Import ListNotations.
@@ -26,7 +30,7 @@ Record tag := mkTag {
   t_short : str; t_shortf : str; t_orgf : str;
   t_tg : bool; t_tl : bool;
   t_base : nat; t_basef : nat;
-  t_uniq : list nat; t_req : list nat }.
+  t_uniq : list nat; t_req : list nat; t_def : nat }.
 
 (* HedGroup / HedTag tree; the top level (HedString) is a [list tree]. *)
 Inductive tree := T (a : tag) | G (l : list tree).
@@ -39,7 +43,9 @@ Inductive kind :=
 | K_GROUP_EMPTY | K_TAG_GROUP_TAG | K_TOP_LEVEL_TAG | K_TOP_LEVEL_TAG_DEFINITION
 | K_TOP_LEVEL_TAG_TEMPORAL | K_MULTIPLE_TOP_TAGS | K_TAG_REPEATED | K_TAG_REPEATED_GROUP
 | K_TAG_NOT_UNIQUE | K_REQUIRED_TAG_MISSING | K_DURATION_HAS_OTHER_TAGS
-| K_DURATION_WRONG_NUMBER_GROUPS.
+| K_DURATION_WRONG_NUMBER_GROUPS
+| K_ONSET_NO_DEF_TAG_FOUND | K_ONSET_TOO_MANY_DEFS | K_ONSET_WRONG_NUMBER_GROUPS
+| K_ONSET_TAG_OUTSIDE_OF_GROUP | K_ONSET_DEF_UNMATCHED | K_ONSET_PLACEHOLDER_WRONG.
 
 (* DefTagNames: reserved ids of short_base_tag values *)
 Definition B_DEFINITION := 1.
@@ -48,6 +54,8 @@ Definition B_OFFSET := 3.
 Definition B_INSET := 4.
 Definition B_DURATION := 5.
 Definition B_DELAY := 6.
+Definition B_DEF := 7.
+Definition B_DEF_EXPAND := 8.
 (* TEMPORAL_KEYS, DURATION_KEYS, ALL_TIME_KEYS *)
 Definition is_temporal (b : nat) : bool := (b =? B_ONSET) || (b =? B_OFFSET) || (b =? B_INSET).
 Definition is_duration_key (b : nat) : bool := (b =? B_DURATION) || (b =? B_DELAY).
@@ -302,6 +310,73 @@ Definition group_checks (m : mode) (nreq nuniq : nat) (top : list tree) : res (l
   let* b := tag_level_issues top in
   let* c := check_for_duplicate_groups m top in
   Ok (a ++ b ++ c ++ validate_duration_tags top).
+
+(* ---------------------------------------------------------------- def_validator.py
+   DefValidator.validate_onset_offset: the shape of Onset / Inset / Offset groups. *)
+
+(* HedGroup._get_def_tags_from_group, per member: a Def tag, or the Def-expand tags of a member group *)
+Definition def_entries_of (c : tree) : list tag :=
+  match c with
+  | T a => if t_base a =? B_DEF then [a] else []
+  | G l => filter (fun a => t_base a =? B_DEF_EXPAND) (tags_of l)
+  end.
+(* found_group.find_def_tags() *)
+Definition find_def_tags (g : list tree) : list tag := flat_map def_entries_of g.
+
+(* HedString.find_top_level_tags(anchor_tags=TEMPORAL_KEYS): the first member tag whose
+   case-folded short_base_tag is Onset / Offset / Inset *)
+Definition is_temporal_tag (c : tree) : bool :=
+  match c with T a => is_temporal (t_basef a) | G _ => false end.
+Definition is_delay_tag (c : tree) : bool :=
+  match c with T a => t_base a =? B_DELAY | G _ => false end.
+
+Section RemoveFirst.
+  Context {A : Type} (p : A -> bool).
+  Fixpoint remove_first (l : list A) : list A :=
+    match l with
+    | [] => []
+    | x :: r => if p x then r else x :: remove_first r
+    end.
+End RemoveFirst.
+
+(* DefValidator._handle_onset_or_offset(def_tag) *)
+Definition handle_onset_or_offset (d : tag) : list kind :=
+  match t_def d with
+  | 0 => []
+  | 1 => [K_ONSET_DEF_UNMATCHED]
+  | _ => [K_ONSET_PLACEHOLDER_WRONG]
+  end.
+
+(* body of the loop of validate_onset_offset for one top-level group *)
+Definition onset_group (g : list tree) : list kind :=
+  match find is_temporal_tag g with
+  | None => []                                      (* no temporal tag: not visited *)
+  | Some found =>
+      match find_def_tags g with
+      | [] => [K_ONSET_NO_DEF_TAG_FOUND]
+      | _ :: _ :: _ => [K_ONSET_TOO_MANY_DEFS]
+      | [d] =>
+          (* children that are neither the def tag / def-expand group nor found_onset (both
+             compared by identity: found_onset is the first temporal tag, and with a single def
+             entry its member is the only one that has def entries), then without Delay tags *)
+          let children :=
+            filter (fun c => null (def_entries_of c) && negb (is_delay_tag c))
+                   (remove_first is_temporal_tag g) in
+          let max_children :=
+            match found with T a => if t_base a =? B_OFFSET then 0 else 1 | G _ => 1 end in
+          if max_children <? length children then [K_ONSET_WRONG_NUMBER_GROUPS]
+          else (match children with T _ :: _ => [K_ONSET_TAG_OUTSIDE_OF_GROUP] | _ => [] end)
+               ++ handle_onset_or_offset d
+      end
+  end.
+
+Definition validate_onset_offset (top : list tree) : list kind :=
+  flat_map onset_group (groups_of top).
+
+(* HedValidator.run_full_string_checks *)
+Definition full_string_checks (m : mode) (nreq nuniq : nat) (top : list tree) : res (list kind) :=
+  let* a := group_checks m nreq nuniq top in
+  Ok (a ++ validate_onset_offset top).
 
 (* ---------------------------------------------------------------- sessions
    The rows of a file are validated one after the other by ONE GroupValidator
